@@ -18,8 +18,24 @@ Inductive c03case :=
     (* parser.Parse(src): None = syntax error, Some ast; unchanged = the source bytes after Parse equal those before *)
 | LexCase (src : string) (impl : option (list (N * string)))
     (* all tokens of src (kind code, value) read through lexer.Lex, None = a lexing error *)
-| BlockCase (raw : string) (impl : string).
-    (* the value of the block string token whose raw content is raw *)
+| EnumBatch (prefix : list N) (small : bool) (unchanged : bool) (acc : list (N * gts)).
+    (* parser.Parse of every token sequence prefix ++ [k] (tokens enum_alphabet[i], written with single
+       spaces), k ranging over the alphabet (small: the reduced one); acc lists the k that were
+       accepted, with the AST; unchanged = no source was modified *)
+
+(* the alphabet of the exhaustive enumeration (same list as c03Alphabet in harness/c03.go) *)
+Definition enum_alphabet : list string :=
+  ["!"; "$"; "("; ")"; "..."; ":"; "="; "@"; "["; "]"; "{"; "|"; "}"; "&";
+   "query"; "mutation"; "subscription"; "fragment"; "on"; "true"; "false"; "null"; "schema"; "scalar"; "type";
+   "interface"; "union"; "enum"; "input"; "extend"; "directive"; "implements";
+   "foo"; "1"; "1.5"; """s"""; """""""b"""""""; """on"""; """implements"""]%string.
+
+Fixpoint render_enum (idx : list N) : bytes :=
+  match idx with
+  | [] => []
+  | [i] => of_string (nth (N.to_nat i) enum_alphabet ""%string)
+  | i :: r => of_string (nth (N.to_nat i) enum_alphabet ""%string) ++ 32 :: render_enum r
+  end.
 
 Definition tkind_code (k : tkind) : N :=
   match k with
@@ -28,6 +44,15 @@ Definition tkind_code (k : tkind) : N :=
   | BRACE_R => 14 | NAME => 15 | INT => 16 | FLOAT => 17 | STRING => 18 | BLOCK_STRING => 19 | AMP => 20
   end.
 
+Fixpoint lookup_acc (k : N) (acc : list (N * gts)) : option gts :=
+  match acc with
+  | [] => None
+  | (j, g) :: r => if j =? k then Some g else lookup_acc k r
+  end.
+Definition seq_N (a n : N) : list N := map N.of_nat (seq (N.to_nat a) (N.to_nat n)).
+Definition small_alphabet : list N :=
+  [0; 1; 2; 3; 4; 5; 6; 7; 8; 9; 10; 11; 12; 13; 14; 17; 18; 19; 21; 22; 24; 26; 29; 31; 32; 33; 35; 37].
+
 Fixpoint toks_eqb (a : list token) (b : list (N * string)) : bool :=
   match a, b with
   | [], [] => true
@@ -35,12 +60,10 @@ Fixpoint toks_eqb (a : list token) (b : list (N * string)) : bool :=
   | _, _ => false
   end.
 
-Definition check (c : c03case) : N :=
-  match c with
-  | ParseCase src unchanged impl =>
+Definition check_parse (src : bytes) (unchanged : bool) (impl : option gts) : N :=
     if negb unchanged then 2      (* "parsing does not modify the source it is given" *)
     else
-      match parse (unhex src), impl with
+      match parse src, impl with
       | OutOfFuel, _ => 1
       | Err, None => 0
       | Err, Some _ => 2          (* accepted a string the grammar does not derive (C03_parse_complete) *)
@@ -49,7 +72,16 @@ Definition check (c : c03case) : N :=
         (* locations are compared unless a name token follows a multi-byte character in an
            ignored position (finding C18-mixed-offset-units: such names are reported in characters) *)
         if gt_eqb (negb mb) (g_doc d) (conv g) then 0 else 2
-      end
+      end.
+
+Definition check (c : c03case) : N :=
+  match c with
+  | ParseCase src unchanged impl => check_parse (unhex src) unchanged impl
+  | EnumBatch prefix small unchanged acc =>
+    fold_left N.max
+      (map (fun k => check_parse (render_enum (prefix ++ [k])) unchanged (lookup_acc k acc))
+           (if small then small_alphabet else seq_N 0 (nlen enum_alphabet)))
+      0
   | LexCase src impl =>
     match lex (unhex src), impl with
     | OutOfFuel, _ => 1
@@ -58,8 +90,6 @@ Definition check (c : c03case) : N :=
     | Ok _, None => 2
     | Ok (ts, _), Some l => if toks_eqb ts l then 0 else 2
     end
-  | BlockCase raw impl =>
-    if bytes_eqb (block_string_value (unhex raw)) (unhex impl) then 0 else 2
   end.
 
 Fixpoint bad (cs : list (N * c03case)) : list (N * N) :=
